@@ -27,6 +27,46 @@ NOT_DECIDED = ["the parsed graphs have exactly the listed edges, weights, ids an
 EDGE_MEMBERSHIP = [r"^not G\.has_edge\((\w+), (\w+)\)$", r"^\((\w+), (\w+)\) not in G\.edges(\(\))?$", r"^not \(\((\w+), (\w+)\) in G\.edges(\(\))?\)$"]
 
 
+def block_boundaries(prog: Program, rep, RID: str):
+    """read_graphs splits a file into blocks by one criterion only: whether a line starts with '#'.  Every scanning loop of the
+    splitter tests the index bound and that criterion - nothing else about the line (a '#S' constraint line is a header line like
+    any other: it opens / belongs to a block)."""
+    from sa import boolnf as B
+    f = prog.function("flowpaths.utils.graphutils", "read_graphs")
+    loops = [n for n in ast.walk(f.node) if isinstance(n, ast.While)]
+    scans = []
+    for w in loops:
+        fm = B.parse(w.test)
+        ats = B.atoms_of(fm)
+        if any("startswith(" in a or "[0] ==" in a or "== '#'" in a for a in ats):
+            scans.append((w, fm, ats))
+    if len(scans) < 3:
+        raise AnalysisError(f"read_graphs: expected three scanning loops (skip to header, consume header, advance to next header), found {len(scans)}")
+    HASH = r"^lines\[\w+\](\.lstrip\(\)|\.strip\(\))?\.startswith\('#'\)$"
+    for w, fm, ats in scans:
+        key = f"read_graphs:scan@{norm(w.test)[:50]}"
+        other = [a for a in ats if "startswith(" in a and not re.fullmatch(HASH, a)]
+        unknown = [a for a in ats if "startswith(" not in a and not re.match(r"^(LT0|LE0)\[", a)]
+        if other:
+            rep.violation(RID, key, f"the block splitter also looks at `{other[0]}`: lines starting with '#' are no longer treated alike, so header / '#S' lines at the "
+                          "start of a block are dropped or left in the previous block (constraints lost, malformed '#S' lines not rejected)", f.loc(w))
+        elif unknown:
+            raise AnalysisError(f"read_graphs: scanning condition `{norm(w.test)}` uses `{unknown[0]}`: not recognised")
+        else:
+            rep.ok(RID, key, "scans by the index bound and `line starts with '#'` only", f.loc(w))
+    # polarity pattern: skip (not #) -> consume (#) -> advance (not #)
+    pol = []
+    for w, fm, ats in scans:
+        h = [a for a in ats if re.fullmatch(HASH, a)]
+        if h:
+            pol.append(B.implies(fm, B.atom(h[0])))
+    key = "read_graphs:scan-order"
+    if pol[:3] == [False, True, False]:
+        rep.ok(RID, key, "skip non-header lines, consume the header lines, advance to the next header", f.loc())
+    else:
+        rep.violation(RID, key, f"the three scans do not alternate skip-non-header / consume-header / advance-to-next-header (polarities {pol})", f.loc())
+
+
 def check(prog: Program, rep):
     rep.rule("C20.R1", "error discipline of read_graph / read_graphs", floor=9)
     val.check_sites(prog, rep, "C20.R1", only_funcs=lambda k: k.endswith(":read_graph"))
@@ -136,3 +176,5 @@ def check(prog: Program, rep):
                 rep.ok("C20.R2", key, f"G.graph['{k}'] = {norm(st.value)} after the edge loop", f.loc(st))
             else:
                 rep.violation("C20.R2", key, f"G.graph['{k}'] = {norm(st.value)} is not computed from the finished graph", f.loc(st))
+    rep.rule("C20.R4", "block boundaries of read_graphs depend only on `line starts with '#'`", floor=4)
+    block_boundaries(prog, rep, "C20.R4")
